@@ -36,6 +36,10 @@ func runC10(c *Ctx) {
 	ruleIntegersNotThroughFloats(c, scope)
 	// "a null where a value is required is rejected": a null argument stays null until it is tested
 	rulePayloadStores(c, "R10.j")
+	rulePointerResultsChecked(c, "R10.k")
+	ruleConnLoopIndexSafety(c, "R10.h")
+	// each position is decoded by the decoder the oracle table names: a laxer one accepts ill-formed tokens (R8C10-m2)
+	ruleSignatures(c, "R10.l")
 	ruleIsNilMeansNull(c, "R10.j")
 	ruleRecycledObjectsReset(c, "R10.p")
 	c.assume("surplus trailing arguments are ignored by most executors (the property speaks of lacking/ill-formed arguments)")
